@@ -443,6 +443,10 @@ func startWatchdog(maxOp time.Duration, maxHeap uint64) {
 			seq := atomic.LoadInt64(&opSeq)
 			runtime.ReadMemStats(&ms)
 			if ms.HeapAlloc > atomic.LoadUint64(&peakHeap) {
+				if os.Getenv("C08_HEAPTRACE") != "" && ms.HeapAlloc>>28 > atomic.LoadUint64(&peakHeap)>>28 {
+					op := curOpText()
+					fmt.Fprintf(os.Stderr, "HEAP %d MB inuse=%d MB objects=%d op=%s\n", ms.HeapAlloc>>20, ms.HeapInuse>>20, ms.HeapObjects, op)
+				}
 				atomic.StoreUint64(&peakHeap, ms.HeapAlloc)
 			}
 			if seq != lastSeq || ms.HeapAlloc < baseHeap {
@@ -458,7 +462,17 @@ func startWatchdog(maxOp time.Duration, maxHeap uint64) {
 				die("call-heap", true, running)
 			}
 			if ms.HeapAlloc > maxHeap {
-				die("call-heap", inCallNow && (running > 2*time.Second || grown > maxHeap/4), running)
+				attributable := inCallNow && (running > 2*time.Second || grown > maxHeap/4)
+				if !attributable {
+					// garbage of many finished calls is not a reason to die: collect, look again
+					runtime.GC()
+					runtime.ReadMemStats(&ms)
+					if ms.HeapAlloc <= maxHeap*3/4 {
+						baseHeap = ms.HeapAlloc
+						continue
+					}
+				}
+				die("call-heap", attributable, running)
 			}
 			if st != 0 && running > maxOp {
 				die("call-time", true, running)
